@@ -1349,3 +1349,10 @@ fn builtin_pcap_write(args: Vec<Rc<Object>>) -> Result<Rc<Object>, String> {
         _ => Err(String::from("first argument should be a file handle")),
     }
 }
+
+// Verification hook (off unless built with `--cfg p2sh_verif` or under Kani): read_from_file is
+// private and otherwise reachable only through a real file descriptor.
+#[cfg(any(p2sh_verif, kani))]
+pub fn verif_read_from_file<R: Read>(reader: &mut R, num_bytes_to_read: usize) -> Rc<Object> {
+    read_from_file(reader, num_bytes_to_read)
+}
